@@ -14,7 +14,7 @@ import (
 
 func init() {
 	register("TOK-7", []string{"TOK-7"}, func(c *Ctx, _ map[string]bool) { c.tok7() })
-	register("TOK-9", []string{"TOK-9", "TOK-10"}, func(c *Ctx, w map[string]bool) { c.tok9(w) })
+	register("TOK-9", []string{"TOK-9", "TOK-10", "TOK-16"}, func(c *Ctx, w map[string]bool) { c.tok9(w) })
 	register("TOK-11", []string{"TOK-11"}, func(c *Ctx, _ map[string]bool) { c.tok11() })
 	register("PAN-2", []string{"PAN-2"}, func(c *Ctx, _ map[string]bool) { c.pan2() })
 	register("PAN-4", []string{"PAN-4"}, func(c *Ctx, _ map[string]bool) { c.pan4() })
@@ -295,7 +295,7 @@ func (c *Ctx) tok9(which map[string]bool) {
 	}
 	c.S.Floor("TOK-9", "request exits with an installed slot", n, 10)
 
-	if which["TOK-10"] && ping != nil {
+	if (which["TOK-10"] || which["TOK-16"]) && ping != nil {
 		// requester-side removal from the shared ping slot must be
 		// conditional on identity with the installed channel
 		k := 0
@@ -330,7 +330,22 @@ func (c *Ctx) tok9(which map[string]bool) {
 				}
 				for i := range chans {
 					k++
+					// taking the callback back must not wait: the slot may have been
+					// emptied already — by the PINGRESP handler or by toOffline — and
+					// then a plain receive blocks until a later Ping fills it (and
+					// steals that Ping's callback)
+					wkey := fmt.Sprintf("TOK-16|(*Client).Ping|withdrawal-does-not-block#%d", k)
+					if !which["TOK-16"] {
+						// (listed separately: TOK-10 carries the known finding F7)
+					} else if sel, isSel := ins.(*ssa.Select); isSel && !sel.Blocking {
+						c.S.OK("TOK-16", wkey, c.P.Pos(ins.Pos()), "(*Client).Ping", "the slot is emptied in a select with a default arm", true)
+					} else {
+						c.S.Bad("TOK-16", wkey, c.P.Pos(ins.Pos()), "(*Client).Ping", "Ping takes its callback back with a receive that waits: when the read routine emptied the slot first (a PINGRESP that came early or late, or the connection loss that made the write fail) the call blocks for good, and the next Ping's callback is taken instead", nil)
+					}
 					key := fmt.Sprintf("TOK-10|(*Client).Ping|recv(pingAck)#%d", k)
+					if !which["TOK-10"] {
+						continue
+					}
 					compared := false
 					if results[i] != nil {
 						if refs := results[i].Referrers(); refs != nil {
@@ -350,7 +365,9 @@ func (c *Ctx) tok9(which map[string]bool) {
 			}
 		}
 		// perPacketID is keyed: endTx(packetID) with the requester's own id satisfies TOK-10 by construction (checked in TOK-9)
-		c.S.OK("TOK-10", "TOK-10|unorderedTxs|keyed-removal", "", "", "Subscribe/Unsubscribe remove by their own packet identifier (TOK-9 checks the argument)", true)
+		if which["TOK-10"] {
+			c.S.OK("TOK-10", "TOK-10|unorderedTxs|keyed-removal", "", "", "Subscribe/Unsubscribe remove by their own packet identifier (TOK-9 checks the argument)", true)
+		}
 	}
 }
 
@@ -692,6 +709,34 @@ func (c *Ctx) tok12() {
 				if l.Kind == pathx.KLookup && l.Chan == key && roleKey(l.Addr) == "unorderedTxs.perPacketID" && l.OkVal != nil {
 					if rel, _, ok := p.Known(l.OkVal, j, i); ok && rel == pathx.RFalse {
 						free = true
+					}
+				}
+			}
+			if !free {
+				// the zero-value form: perPacketID[id].done == nil, sound because
+				// every stored callback carries the channel made a few lines up
+				for j := 0; j < i; j++ {
+					l := &p.Events[j]
+					if l.Kind != pathx.KLookup || l.Chan != key || roleKey(l.Addr) != "unorderedTxs.perPacketID" || l.OkVal != nil {
+						continue
+					}
+					lk, ok := l.Instr.(*ssa.Lookup)
+					if !ok || lk.Referrers() == nil {
+						continue
+					}
+					for _, r := range *lk.Referrers() {
+						fld, ok := r.(*ssa.Field)
+						if !ok {
+							continue
+						}
+						if _, isChan := fld.Type().Underlying().(*types.Chan); !isChan {
+							continue
+						}
+						if rel, _, ok := p.Known(fld, j, i); ok && rel == pathx.RNil {
+							if mu, isMU := e.Instr.(*ssa.MapUpdate); isMU && storesMadeChan(mu.Value) {
+								free = true
+							}
+						}
 					}
 				}
 			}
@@ -1073,4 +1118,36 @@ func (c *Ctx) tok15() {
 		}
 	}
 	c.S.Floor("TOK-15", "deposits into a sequence semaphore", n, 6)
+}
+
+// storesMadeChan: the struct value stored has a channel field that is a
+// channel made in this function (never nil).
+func storesMadeChan(v ssa.Value) bool {
+	// a composite literal is built in a local and loaded
+	u, ok := v.(*ssa.UnOp)
+	if !ok {
+		return false
+	}
+	al, ok := u.X.(*ssa.Alloc)
+	if !ok {
+		return false
+	}
+	for _, r := range *al.Referrers() {
+		fa, ok := r.(*ssa.FieldAddr)
+		if !ok {
+			continue
+		}
+		for _, rr := range *fa.Referrers() {
+			if st, ok := rr.(*ssa.Store); ok && st.Addr == ssa.Value(fa) {
+				val := st.Val
+				if ct, isCT := val.(*ssa.ChangeType); isCT {
+					val = ct.X
+				}
+				if _, isMake := val.(*ssa.MakeChan); isMake {
+					return true
+				}
+			}
+		}
+	}
+	return false
 }
